@@ -386,6 +386,12 @@ pub fn magnitude_cross(fam: Family, s: Scalar) -> Vec<DistSpec> {
     v
 }
 
+/// Geometric: one p in every octave of E (the internal split exponent k takes every value
+/// 1..=40 once): a wrong bound on k is wrong for a single k, i.e. one octave of p.
+pub fn geometric_octaves() -> Vec<DistSpec> {
+    (1..=40).map(|j| DistSpec::i(Family::Geometric, &[], &[0.75 * 2.0_f64.powi(-j)])).collect()
+}
+
 /// Random interior point of E for a continuous family.
 pub fn cont_random(fam: Family, s: Scalar, r: &mut SimRng) -> DistSpec {
     let f32_ = s == Scalar::F32;
@@ -547,6 +553,17 @@ pub fn disc_grid(fam: Family, s: Scalar) -> Vec<DistSpec> {
                 (10_000_000_000, 1e-7),
                 (20_000, 0.5),
                 (100_000_000_000, 1e-7),
+                // (n+1) p is an integer up to rounding: floor() in the mode computation sits
+                // on its boundary, two algebraically equal formulas can disagree by one
+                (50, 1.0 / 3.0),
+                (200, 1.0 / 3.0),
+                (39, 0.35),
+                (99, 0.24),
+                (99, 0.55),
+                (109, 0.3),
+                (9999, 0.35),
+                (99_999, 0.3),
+                (29, 0.4),
             ];
             v.into_iter().map(|(n, p)| DistSpec::i(fam, &[n], &[p])).collect()
         }
@@ -558,7 +575,7 @@ pub fn disc_grid(fam: Family, s: Scalar) -> Vec<DistSpec> {
             }
             l.into_iter().map(|x| DistSpec::f(fam, s, &[x])).collect()
         }
-        Family::Geometric => [1.0, 0.9, 2.0 / 3.0, 0.66, 0.5, 0.3, 0.1, 1e-3, 1e-6, 3e-10, 1.5e-10, 1e-12]
+        Family::Geometric => [1.0, 0.9, 2.0 / 3.0, 0.66, 0.5, 0.3, 0.1, 1e-3, 1e-6, 3e-10, 1.5e-10, 1e-12, 5e-10, 9e-10]
             .iter()
             .map(|&p| DistSpec::i(fam, &[], &[p]))
             .collect(),
@@ -585,6 +602,10 @@ pub fn disc_grid(fam: Family, s: Scalar) -> Vec<DistSpec> {
                 [200, 13, 150],
                 // H2PE just above its threshold (mode 10..12): the end points of the support
                 // still carry ~e^-10 of mass here
+                // (n+1)(K+1)/(N+2) an exact integer: the mode's floor() on its boundary
+                [998, 499, 19],
+                [9998, 4999, 99],
+                [98, 49, 9],
                 [1u64 << 30, 103_622, 103_622],
                 [1u64 << 30, (1u64 << 30) - 103_622, 103_622],
                 [1u64 << 30, 103_622, (1u64 << 30) - 103_622],
